@@ -437,7 +437,7 @@ package websocket
 //@ ghostfield Conn.g_out int
 //@ ghostfield Conn.g_wst bool
 
-//@ pred WBuf(w) := w.c != nil && w.c.conn != nil && !held(w.c.mu) && region(w.c.writeBuf) > 0 && 14 <= w.pos && w.pos <= len(w.c.writeBuf) && 14 < len(w.c.writeBuf) && off(w.c.writeBuf) == 0 && \
+//@ pred WBuf(w) := w.c != nil && w.c.conn != nil && !held(w.c.mu) && region(w.c.writeBuf) > 0 && live(w.c.writeBuf) && 14 <= w.pos && w.pos <= len(w.c.writeBuf) && 139 <= len(w.c.writeBuf) && off(w.c.writeBuf) == 0 && \
 //@     w.c.g_out >= 0 && w.c.g_acc == w.c.g_out + (w.pos - 14) && (isControlT(w.frameType) || isDataT(w.frameType) || w.frameType == 0) && \
 //@     iff(w.frameType == 0, w.c.g_wst) && imp(w.compress, isDataT(w.frameType) && w.c.newCompressionWriter != nil)
 //@ pred WData(w) := forall(j, 14, w.pos, w.c.writeBuf[j] == w.c.g_app[w.c.g_out + j - 14])
@@ -453,12 +453,14 @@ package websocket
 //@ ensures imp(old(w.err) != nil, w.err == old(w.err) && w.c.writer == old(w.c.writer) && region(w.c.writeBuf) == old(region(w.c.writeBuf)) && len(w.c.writeBuf) == old(len(w.c.writeBuf)))
 //@ ensures imp(old(w.err) == nil, w.err == err && w.c.writer == nil)
 //@ ensures[C20.release] imp(old(w.err) == nil && w.c.writePool != nil, region(w.c.writeBuf) == 0 && len(w.c.writeBuf) == 0)
+//@ assert at call:Put#1[C20.same]: typeIs(arg1, "writePoolData") && region(asType(arg1, "writePoolData").buf) == region(w.c.writeBuf) && len(asType(arg1, "writePoolData").buf) == len(w.c.writeBuf)
 //@ ensures[C20.keep] imp(old(w.err) == nil && w.c.writePool == nil, region(w.c.writeBuf) == old(region(w.c.writeBuf)) && len(w.c.writeBuf) == old(len(w.c.writeBuf)) && off(w.c.writeBuf) == old(off(w.c.writeBuf)))
 
 //@ func (BufferPool).Put
 //@ params pool v
 //@ trusted
 //@ pure
+//@ releases asType(v, "writePoolData").buf
 
 // flushFrame.  length = w.pos - 14 + len(extra) payload bytes; the header is
 // back-filled so that it ends at index 14 of writeBuf.
@@ -475,7 +477,7 @@ package websocket
 //@ let ft := w.frameType
 //@ let cmp := w.compress
 //@ let out0 := w.c.g_out
-//@ requires w.err == nil && WBuf(w) && imp(len(extra) > 0, w.c.isServer) && region(extra) != region(w.c.writeBuf)
+//@ requires w.err == nil && WBuf(w) && imp(len(extra) > 0, w.c.isServer) && region(extra) != region(w.c.writeBuf) && live(extra)
 //@ requires@int WData(w) && forall(i, 0, len(extra), extra[i] == w.c.g_app[w.c.g_acc + i])
 //@ modifies MsgMods(w)
 //@ ensures[C09.sticky] imp(old(c.writeErr) != nil, c.writeErr == old(c.writeErr))
@@ -515,8 +517,8 @@ package websocket
 //   compression writer, whose g_inner ghost names it).
 //@ ghostfield io.WriteCloser.g_inner ref
 //@ pred curW(c) := ite(c.writer == nil, asPtr(nilref(), "*messageWriter"), ite(typeIs(c.writer, "*messageWriter"), asType(c.writer, "*messageWriter"), asPtr(c.writer.g_inner, "*messageWriter")))
-//@ pred WConn(c) := c.conn != nil && !held(c.mu) && c.writeBufSize > 14 && c.g_acc >= 0 && c.g_out >= 0 && \
-//@     ((region(c.writeBuf) == 0 && len(c.writeBuf) == 0 && c.writePool != nil) || (region(c.writeBuf) > 0 && len(c.writeBuf) > 14 && off(c.writeBuf) == 0)) && \
+//@ pred WConn(c) := c.conn != nil && !held(c.mu) && c.writeBufSize >= 139 && c.g_acc >= 0 && c.g_out >= 0 && \
+//@     ((region(c.writeBuf) == 0 && len(c.writeBuf) == 0 && c.writePool != nil) || (region(c.writeBuf) > 0 && len(c.writeBuf) >= 139 && off(c.writeBuf) == 0 && live(c.writeBuf))) && \
 //@     imp(c.g_wst && c.writer == nil, c.writeErr != nil)
 //@ pred WOpen(c) := imp(c.writer != nil, curW(c) != nil && ref(curW(c)) < alloc() && curW(c).c == c && curW(c).err == nil && WBuf(curW(c)))
 //@ pred WOpenData(c) := imp(c.writer != nil, WData(curW(c)))
@@ -526,7 +528,7 @@ package websocket
 //@ results result
 //@ trusted
 //@ modifies
-//@ ensures imp(typeIs(result, "writePoolData"), region(asType(result, "writePoolData").buf) >= old(alloc()) && region(asType(result, "writePoolData").buf) < alloc() && len(asType(result, "writePoolData").buf) > 14 && off(asType(result, "writePoolData").buf) == 0)
+//@ ensures imp(typeIs(result, "writePoolData"), region(asType(result, "writePoolData").buf) >= old(alloc()) && region(asType(result, "writePoolData").buf) < alloc() && live(asType(result, "writePoolData").buf) && len(asType(result, "writePoolData").buf) >= 139 && off(asType(result, "writePoolData").buf) == 0)
 
 //@ func (*messageWriter).ncopy
 //@ tags C01 C02 C10 C20
@@ -548,7 +550,7 @@ package websocket
 //@ tags C01 C02 C10 C20
 //@ results n err
 //@ let c := w.c
-//@ requires imp(w.err == nil, WBuf(w) && region(p) != region(w.c.writeBuf) && region(p) >= 0) && imp(w.err == nil, WData(w))
+//@ requires imp(w.err == nil, WBuf(w) && region(p) != region(w.c.writeBuf) && region(p) >= 0 && live(p)) && imp(w.err == nil, WData(w))
 //@ requires imp(w.err == nil, forall(i, 0, len(p), p[i] == w.c.g_app[w.c.g_acc + i]))
 //@ modifies MsgMods(w)
 //@ ensures[C09.sticky] imp(old(c.writeErr) != nil, c.writeErr == old(c.writeErr))
@@ -561,7 +563,7 @@ package websocket
 //@ ensures[accmono] c.g_acc >= old(c.g_acc) && imp(old(w.err) == nil, c.g_out >= 0)
 //@ ensures[wst] imp(isControlT(old(w.frameType)) || old(w.err) != nil, c.g_wst == old(c.g_wst))
 //@ ensures[C10.failstop] imp(err != nil && old(w.err) == nil && !isControlT(old(w.frameType)), c.writeErr != nil)
-//@ ensures[C01.accept] imp(old(w.err) == nil && err != nil && isControlT(old(w.frameType)) && old(w.pos) - 14 + len(p) <= 125 && old(len(w.c.writeBuf)) >= 139, c.writeErr != nil)
+//@ ensures[C01.accept] imp(old(w.err) == nil && err != nil && isControlT(old(w.frameType)) && old(w.pos) - 14 + len(p) <= 125, c.writeErr != nil)
 //@ loop 1 modifies MsgMods(w)
 //@ loop 1 invariant w.err == nil && WBuf(w) && suffixOf(p, old(p)) && c.g_acc == old(c.g_acc) + len(old(p)) - len(p) && len(c.writeBuf) == old(len(c.writeBuf)) && region(c.writeBuf) == old(region(c.writeBuf))
 //@ loop 1 invariant WData(w)
@@ -681,7 +683,7 @@ package websocket
 
 //@ func (*Conn).WriteMessage
 //@ tags C01 C02 C09 C10 C20
-//@ requires WConn(c) && WOpen(c) && region(data) >= 0 && region(data) != region(c.writeBuf)
+//@ requires WConn(c) && WOpen(c) && region(data) >= 0 && region(data) != region(c.writeBuf) && live(data)
 //@ requires WOpenData(c)
 //@ requires forall(i, 0, len(data), data[i] == c.g_app[c.g_acc + i])
 //@ modifies PrevMods(c)
@@ -697,7 +699,7 @@ package websocket
 //@ tags C01 C03 C20
 //@ requires conn != nil && writeBufferSize <= 1099511627776 && readBufferSize <= 1099511627776
 //@ requires imp(br != nil, br.g_size >= 125 && br.g_buf > 0 && br.g_buffered >= 0 && br.g_rd >= 0)
-//@ requires imp(region(writeBuf) != 0, len(writeBuf) >= 139 && off(writeBuf) == 0 && region(writeBuf) > 0)
+//@ requires imp(region(writeBuf) != 0, len(writeBuf) >= 139 && off(writeBuf) == 0 && region(writeBuf) > 0 && live(writeBuf))
 //@ modifies
 //@ ensures[fresh] result != nil && ref(result) >= old(alloc())
 //@ ensures[fields] result.conn == conn && result.isServer == isServer && result.writePool == writeBufferPool && imp(br != nil, result.br == br)
@@ -705,5 +707,5 @@ package websocket
 //@     result.br.g_size >= 125 && result.br.g_buf > 0 && result.br.g_buffered >= 0 && result.br.g_rd >= 0 && !held(result.mu)
 //@ ensures[nocompress] result.newCompressionWriter == nil && result.newDecompressionReader == nil && result.enableWriteCompression && result.compressionLevel == 1
 //@ ensures[writer] result.writer == nil && result.writeErr == nil && result.writeBufSize >= 139 && \
-//@     ((region(result.writeBuf) == 0 && len(result.writeBuf) == 0 && result.writePool != nil) || (region(result.writeBuf) > 0 && len(result.writeBuf) >= 139 && off(result.writeBuf) == 0))
+//@     ((region(result.writeBuf) == 0 && len(result.writeBuf) == 0 && result.writePool != nil) || (region(result.writeBuf) > 0 && len(result.writeBuf) >= 139 && off(result.writeBuf) == 0 && live(result.writeBuf)))
 //@ ensures[C01.ctlroom] imp(region(result.writeBuf) != 0, len(result.writeBuf) >= 14 + 125)
